@@ -234,6 +234,10 @@ pub fn run(ctx: &Ctx) -> (Report, String) {
         for k in ["sweep:sor-custom8", "sweep:ptype-lowbits", "sweep:opptype-bits", "sweep:cpfmt", "sweep:par", "sweep:cpcfc-etr", "sweep:uui-sss", "sweep:layers", "sweep:rps", "sweep:pb", "inheritance_pairs", "marker_flips_rejected", "decoded_picture_header_checked", "decoded_picture_header_checked_in_history", "sweep:pei-ladder"] {
             rep.require(k, if k == "sweep:pei-ladder" { 20 } else { 40 });
         }
+        {
+            // the decoded-picture clause must actually have been observed on the extreme sizes too
+            rep.require("decoded_header_large_sizes_checked", 60);
+        }
     }
     (rep, rule())
 }
@@ -662,6 +666,9 @@ fn shard(ctx: &Ctx, s: usize, n_random: u64, thorough: bool, rep: &mut Report) {
                 rep.violation(format!("decoded-size/{}", flavour.name()), format!("header says {}x{} picture is {:?}", w, h, dims), coords());
             } else {
                 rep.count("decoded_picture_header_checked");
+                if (i as usize) < big.len() {
+                    rep.count("decoded_header_large_sizes_checked");
+                }
                 rep.distinct.insert(fnv64(&bytes));
             }
             if i == 0 {
